@@ -156,6 +156,19 @@ func (i *InterfaceCollection) Append(ctx context.Context, iface *config.Interfac
 		log.Error().Str("expected-template", i.template).Str("interface-template", *iface.Config.Template).Msg(msg)
 		return errors.New(msg)
 	}
+	if len(i.interfaces) > 0 {
+		// The remaining per-file parameters are read from the first mock of the
+		// file, so every other mock has to agree with it.
+		first := i.interfaces[0].Config
+		if *first.TemplateSchema != *iface.Config.TemplateSchema ||
+			*first.RequireTemplateSchemaExists != *iface.Config.RequireTemplateSchemaExists ||
+			*first.Formatter != *iface.Config.Formatter ||
+			*first.ForceFileWrite != *iface.Config.ForceFileWrite {
+			msg := "all mocks in an output file must use the same template-schema, require-template-schema-exists, formatter and force-file-write"
+			log.Error().Msg(msg)
+			return errors.New(msg)
+		}
+	}
 	i.interfaces = append(i.interfaces, iface)
 	return nil
 }
@@ -308,15 +321,20 @@ func (r *RootApp) Run() error {
 			return err
 		}
 
+		// Per-file parameters can be set at any config level. All mocks in the
+		// file carry the same effective values (enforced by Append), so they
+		// are taken from the first mock rather than from the package config.
+		fileConfig := interfacesInFile.interfaces[0].Config
+
 		generator, err := pkg.NewTemplateGenerator(
 			fileCtx,
 			interfacesInFile.srcPkg,
 			interfacesInFile.outFilePath.Parent(),
-			*packageConfig.Config.Template,
-			*packageConfig.Config.TemplateSchema,
-			*packageConfig.Config.RequireTemplateSchemaExists,
+			*fileConfig.Template,
+			*fileConfig.TemplateSchema,
+			*fileConfig.RequireTemplateSchemaExists,
 			remoteTemplateCache,
-			pkg.Formatter(*r.Config.Formatter),
+			pkg.Formatter(*fileConfig.Formatter),
 			packageConfig.Config,
 			interfacesInFile.outPkgName,
 		)
@@ -340,8 +358,8 @@ func (r *RootApp) Run() error {
 			fileLog.Err(err).Msg("can't determine if outfile exists")
 			return fmt.Errorf("determining if outfile exists: %w", err)
 		}
-		if outFileExists && !*packageConfig.Config.ForceFileWrite {
-			fileLog.Error().Bool("force-file-write", *packageConfig.Config.ForceFileWrite).Msg("output file exists, can't write mocks")
+		if outFileExists && !*fileConfig.ForceFileWrite {
+			fileLog.Error().Bool("force-file-write", *fileConfig.ForceFileWrite).Msg("output file exists, can't write mocks")
 			return fmt.Errorf("outfile exists")
 		}
 
